@@ -49,7 +49,8 @@ def cases(tier):
         idx = [i for i, it in enumerate(its) if len(it.alts) > 1 and _line_item(it)]
         for first in range(-1, len(idx)):
             yield ("render", si, first, k)
-    yield ("hist", 3 if tier == "quick" else 4)
+    for first in range(-1, len(EVENTS)):
+        yield ("hist", 3 if tier == "quick" else 4, first)
     for model in range(len(MODELS)):
         for layout in range(4):
             for via in ("api", "cli"):
@@ -130,7 +131,7 @@ def _run_hist(case):
     from mpilot.parser.parser import Parser
     from mpilot.program import Program
 
-    depth = case[1]
+    depth, first = case[1], case[2]
     fresh = Parser().parse(PROBE)
     fresh_probe = (G.tree_of(fresh), fresh.version)
     fresh_lines = {name: _safe_tree(Parser(), TEXTS[name]) for name in ("VALID5", "V2TEXT", "CRLFTEXT", "STRNL")}
@@ -153,12 +154,11 @@ def _run_hist(case):
                     observed.append("error:" + type(exc).__name__)
         counter["n"] += 1
         lx = getattr(parser, "lexer", None)
-        fields = (getattr(lx, "lineno", None), getattr(parser, "eems_v2", None), hist[-1] if hist else None)
+        fields = (getattr(lx, "lineno", None), getattr(parser, "eems_v2", None), tuple(hist))
         return parser, observed, fields
 
     def canon(st):
-        # parser-object fields before the probe + the last event (the object identity/last text is all that can matter to the future);
-        # an over-fine canonical form only costs time
+        # no merging of histories: an over-fine canonical form only costs time (585 histories at depth 3)
         return st[2]
 
     def invariant(hist, st):
@@ -184,7 +184,11 @@ def _run_hist(case):
             out.append(V("C11:history:version-depends-on-history", "probe version after %r is %r, fresh parser %r" % (hist, got[1], fresh_probe[1]), **tag))
         return out
 
-    r = bfs([], lambda h, s: EVENTS, build, canon, invariant, depth)
+    if first < 0:
+        r = bfs([], lambda h, s: [], build, canon, invariant, 0)
+    else:
+        r = bfs([EVENTS[first]], lambda h, s: EVENTS, build, canon, invariant, depth - 1)
+        r["transitions"] += 1
     return {"evals": counter["n"], "nontrivial": r["states"], "judged": r["transitions"], "states": r["states"], "transitions": r["transitions"],
             "viols": r["viols"][:40], "outcomes": {"hist-states=%d" % r["states"]: 1},
             "sample": {"events": [list(e) for e in EVENTS], "probe": PROBE, "depth": depth, "states": r["states"], "transitions": r["transitions"]}}
